@@ -26,6 +26,8 @@ def replay(w):
                 S = A @ A.T / n + 0.1 * np.eye(n)
                 tag = nt.get('tag')
                 vals = [0.01, 0.25]
+                if 'lam' in inp and abs(flt(inp['lam'])) not in vals:
+                    vals = [abs(flt(inp['lam']))] + vals          # the witness's own value first (it may be exactly 0)
                 if kind == 'type':
                     vals = [1, 2] if tag in INT_TAGS else [float(FORMS[tag](0.11)), float(FORMS[tag](0.37))]
                 for val in vals:
